@@ -1,10 +1,11 @@
 """C07 — reclamation and descriptor hygiene."""
 from vlib import common as C
-from vlib import dcheck
+from vlib import dcheck, directed
 
 LEVEL = "proof"
 
 
 def run(ctx, out):
     dcheck.run_property(ctx, out, "C07", "mon_c07", n_quick=300, n_thorough=5000,
-                        gen_kw=dict(ws_share=0.4, batches=0.1, malformed=0.06, faults=True))
+                        gen_kw=dict(ws_share=0.4, batches=0.1, malformed=0.06, faults=True),
+                        directed=directed.regressions() + directed.batch_orders() + directed.close_positions(ctx.thorough))
